@@ -404,7 +404,7 @@ def equal_content(a, b):
     elif isinstance(a, SymSet):
         body = _b(a.member(x)) == _b(b.member(x))
     else:
-        return a is b
+        return a is b or (a.name is not None and a.name == b.name)     # immutable, named after its input
     return simp(z3.ForAll([x], body))
 
 
